@@ -2,7 +2,7 @@ INIT Init
 NEXT Next
 CONSTANTS
   MaxContigs = 4
-  MaxN = 2
+  MaxN = 1
   MaxStar = 1
   Modes = {"single", "multi"}
   Variant = "design"
